@@ -10,7 +10,7 @@
      duptok  p      write piece p twice                  p in 1..Toks
      swaptok p      exchange pieces p and p+1            p in 1..Toks-1
      nest    p n    insert n openers before piece p      p in 1..Toks, n in NestDepths
-                    (kind = n mod 4: "message M {", "{", "[", "(")
+                    (kind = p mod 4: "message M {", "{", "[", "(")
      truncate k     keep the first k bytes               k in 0..Bytes
      insnul  k      insert a NUL byte at byte k          k in 0..Bytes
      insbad  k      insert the invalid UTF-8 byte 0x80   k in 0..Bytes
